@@ -274,7 +274,7 @@ def analyse_reject(rlines, verd, report, stats, samples):
         if sub:
             site += ":" + sub
         rec = {"line": l}
-        if exp == "model":
+        if exp in ("model", "sysmodel"):
             v = verd.get(i)
             if v is None:
                 report(Finding(site, ["no_model_verdict"], "no verdict of the Lean table for: " + l[:200], l), "reject", rec)
